@@ -31,6 +31,10 @@ func init() { register("C10", runC10) }
 //	                  has returned), <probe> is authenticated on GET /api/v1/access, on an admin route (DELETE
 //	                  /api/v1/access/<never issued value>) and on the websocket connect check; then <held> is released.
 //	                  result "ovl:<role of held>:<role of probe>,<ok|401>,<ok|no>": every answer depends on its own token only.
+//	SLW:<first>:<second> every SQL statement is made to wait (the whole connection pool is held for a moment, i.e. the
+//	                  delay is BELOW the repository layer); <first> is authenticated (GET /api/v1/access) and, once its
+//	                  statement waits, <second> on GET /api/v1/access, on the admin route and on the websocket check,
+//	                  each from its own goroutine; then the pool is released.  result "slw:..." shaped like "ovl:...".
 //	A=<value>         (only as the first element) the admin token the case is configured with
 //	X                 restart: close the database, reopen the same SQLite file, rebuild services + engine
 //	Cf:<cred>:<name>  like C, but the COMMIT of the INSERT fails (SQLite commit hook turns it into a ROLLBACK)
@@ -304,6 +308,85 @@ func (st *c10State) op(o string, dir string) string {
 			return fmt.Sprintf("w:INCONSISTENT(client=%s,check=%s)", r, direct)
 		}
 		return "w:" + r
+	case p[0] == "SLW" && len(p) == 3:
+		// overlap BELOW the repository: every SQL statement waits (the connection pool is held) while <first> and,
+		// once that one waits, <second> (ordinary route, admin route, websocket check, each in its own goroutine)
+		// are authenticated; then the pool is released and the answers are collected
+		first, second := st.resolve(p[1]), st.resolve(p[2])
+		release, waiters, err := holdPool(st.fs.Stack, 2)
+		if err != nil {
+			return "slw:HARNESS-ERROR"
+		}
+		expect := int64(0)
+		if first != st.admin {
+			expect++
+		}
+		fdone := make(chan string, 1)
+		go func() { fdone <- st.role(first) }()
+		if first != st.admin {
+			waitFor(2*time.Second, func() bool { return waiters() >= 1 })
+		} else {
+			time.Sleep(2 * time.Millisecond)
+		}
+		r1, r2, r3, r4 := make(chan string, 1), make(chan string, 1), make(chan string, 1), make(chan string, 1)
+		go func() { r1 <- st.role(second) }()
+		go func() {
+			code, _ := st.do("DELETE", "/api/v1/access/"+c10Unknown("ovl"), second)
+			switch code {
+			case 200:
+				r2 <- "ok"
+			case 401:
+				r2 <- "401"
+			default:
+				r2 <- fmt.Sprintf("E%d", code)
+			}
+		}()
+		go func() {
+			defer func() {
+				if r := recover(); r != nil {
+					r3 <- "PANIC"
+				}
+			}()
+			if _, err := st.fs.Services.Tokens.GetToken(second); err != nil {
+				r3 <- "no"
+			} else {
+				r3 <- "ok"
+			}
+		}()
+		go func() {
+			if !st.real {
+				r4 <- ""
+				return
+			}
+			rc := st.fs.WsConnect(second)
+			if rc == "no:3500" {
+				rc = "no"
+			}
+			r4 <- rc
+		}()
+		if second != st.admin {
+			expect += 3
+			if st.real {
+				expect++
+			}
+		}
+		// all of them are waiting for the database now (under a fault that merges lookups fewer statements wait:
+		// give up after 80 ms)
+		waitFor(80*time.Millisecond, func() bool { return waiters() >= expect })
+		release()
+		get := func(ch chan string) string {
+			select {
+			case r := <-ch:
+				return r
+			case <-time.After(10 * time.Second):
+				return "TIMEOUT"
+			}
+		}
+		a, b, c2, d, e := get(fdone), get(r1), get(r2), get(r3), get(r4)
+		if e != "" && e != d {
+			d = "INCONSISTENT(client=" + e + ",check=" + d + ")"
+		}
+		return "slw:" + a + ":" + b + "," + c2 + "," + d
 	case p[0] == "OVL" && len(p) == 3:
 		held, probe := st.resolve(p[1]), st.resolve(p[2])
 		reached, release := st.pause.arm(held)
@@ -487,7 +570,7 @@ func c10Gen(c *Ctx, maxLen int) string {
 				created = append(created, nm)
 			}
 		case r < 22 && c.Rng.Intn(2) == 0:
-			ops = append(ops, "OVL:"+anyName()+":"+anyName())
+			ops = append(ops, pick([]string{"OVL:", "SLW:", "SLW:"})+anyName()+":"+anyName())
 		case r < 22:
 			nm := "g"
 			if len(unbound) > 0 {
@@ -594,7 +677,7 @@ func runC10(c *Ctx) error {
 	for _, adm := range adminTokenVariants() {
 		for _, h := range []string{
 			"H:adm;W:adm;C:adm:a;H:a;W:a;X;H:adm;H:a;R:adm:a;H:a;R:adm:adm;H:adm;W:adm;H:adm^;H:adm-;W:adm^",
-			"C:adm:a;OVL:a:adm;OVL:adm:a;OVL:u1:adm;RACE:a;H:adm;Cf:adm:b;Rf:adm:a;Wr:adm;Wr:adm-",
+			"C:adm:a;OVL:a:adm;OVL:adm:a;OVL:u1:adm;SLW:a:adm;SLW:adm:a;SLW:u1:a;RACE:a;H:adm;Cf:adm:b;Rf:adm:a;Wr:adm;Wr:adm-",
 		} {
 			if err := one("A="+adm+";"+h, "admin-variant-fixed"); err != nil {
 				return err
